@@ -68,3 +68,21 @@ func encodeUTF8(codePoint int) []byte {
 	// Invalid code point, return replacement character (U+FFFD)
 	return []byte{0xEF, 0xBF, 0xBD}
 }
+
+// isSafeDecoded reports whether a code point obtained from a \x, \u or \u{} escape can be written
+// to the string literal as a raw character. Quotes, the backslash, control characters, line
+// terminators and lone surrogates must stay escaped, otherwise the literal would not survive being
+// written back between double quotes.
+func isSafeDecoded(codePoint int) bool {
+	switch {
+	case codePoint == '"', codePoint == '\'', codePoint == '\\', codePoint == '`':
+		return false
+	case codePoint < 0x20, codePoint == 0x7F:
+		return false
+	case codePoint == 0x2028, codePoint == 0x2029:
+		return false
+	case codePoint >= 0xD800 && codePoint <= 0xDFFF:
+		return false
+	}
+	return true
+}
